@@ -362,6 +362,40 @@ pub fn histories(ss: &[(&'static str, Vec<u8>, Vec<u8>)], thorough: bool) -> Vec
     v
 }
 
+/// Slow connections: the flow table keeps entries for a lifetime measured in REAL time (60 s), so a connection whose
+/// packets are 150 ms apart must be reassembled like a fast one. All streams wait at the same time (about 0.6 s in all).
+fn slow_connections(r: &mut Report, ss: &[(&'static str, Vec<u8>, Vec<u8>)], refs: &[(Option<String>, Option<String>)]) {
+    let mut runs: Vec<(usize, HttpSeq, Vec<Vec<u8>>, Vec<(Option<String>, Option<String>)>)> = vec![];
+    for (si, (_n, req, resp)) in ss.iter().enumerate() {
+        let h = Hist { stream: si, client_isn: 0x7000, server_isn: 0x9000, segs: vec![(true, 0, req.len() / 2), (true, req.len() / 2, req.len() - req.len() / 2), (false, 0, resp.len() / 2), (false, resp.len() / 2, resp.len() - resp.len() / 2)], handshake: 0, fin: 0 };
+        let mut frames = vec![pkt::build(&Spec { src: 1, sport: 40000, dst: 2, dport: 80, flags: SYN, seq: h.client_isn, ..Spec::default() }), pkt::build(&Spec { src: 2, sport: 80, dst: 1, dport: 40000, flags: SYN | ACK, seq: h.server_isn, ack: h.client_isn.wrapping_add(1), ..Spec::default() })];
+        frames.extend(h.segs.iter().map(|sg| frame_for(&h, req, resp, sg)));
+        runs.push((si, HttpSeq::new(None, 8), frames, vec![]));
+    }
+    for step in 0..6 {
+        if step > 0 {
+            std::thread::sleep(std::time::Duration::from_millis(150));
+        }
+        for (_, a, frames, out) in runs.iter_mut() {
+            let f = frames[step].clone();
+            match guarded(|| summary(&a.feed(&f))) {
+                Ok(x) => out.push(x),
+                Err(_) => out.push((Some("panic".into()), None)),
+            }
+        }
+    }
+    for (si, _, _, out) in runs {
+        r.exec(6);
+        let req = out.iter().filter_map(|x| x.0.clone()).collect::<Vec<_>>();
+        let resp = out.iter().filter_map(|x| x.1.clone()).collect::<Vec<_>>();
+        let (er, es) = &refs[si];
+        r.outcome(&("slow", si, req.len(), resp.len()));
+        if req != er.iter().cloned().collect::<Vec<_>>() || resp != es.iter().cloned().collect::<Vec<_>>() {
+            r.dev(format!("C09/{}/slow-connection-differs-from-single-segment-result", ss[si].0), "slow", || json!({"kind": "slow", "stream": ss[si].0, "detail": "packets 150 ms of real time apart", "requests": req.len(), "responses": resp.len()}));
+        }
+    }
+}
+
 pub fn run(thorough: bool) -> Outcome {
     let ss = streams();
     // single-segment reference results
@@ -408,9 +442,10 @@ pub fn run(thorough: bool) -> Outcome {
         }
         r
     });
+    slow_connections(&mut pre, &ss, &refs);
     Outcome {
         report: pre.merge(rep),
-        rule: "HTTP/1 (CRLF heads; bare-LF heads whose bodies contain CRLF blank lines; CRLF heads whose bodies contain LF blank lines; bodies that are not UTF-8) and HTTP/2 (single HEADERS frame; HEADERS + CONTINUATION frames) exchanges after SYN/SYN+ACK, reference = each direction cut exactly behind its head: every 1-, 2- and 3-partition (3-partitions on a stride in quick) of each direction x 9 initial sequence numbers (0, 1, 2^31, 2^31-10, 2^32-1, 2^32-2, 2^32-len, 2^32-len/2, 0x12345678) x every arrival permutation; both directions in two pieces each in all 24 interleavings (with and without wrap); four request pieces in all 24 orders; the handshake in 4 further shapes (SYN+ACK before SYN, retransmitted SYN+ACK, a stale SYN or SYN+ACK of the reversed orientation first) x whole and two-piece directions; teardown inside the exchange (FIN on the server's last segment, an empty client FIN between request and response, FIN on the client's last segment) x whole and two-piece directions; distinct = distinct per-packet report patterns".into(),
+        rule: "HTTP/1 (CRLF heads; bare-LF heads whose bodies contain CRLF blank lines; CRLF heads whose bodies contain LF blank lines; bodies that are not UTF-8) and HTTP/2 (single HEADERS frame; HEADERS + CONTINUATION frames) exchanges after SYN/SYN+ACK, reference = each direction cut exactly behind its head: every 1-, 2- and 3-partition (3-partitions on a stride in quick) of each direction x 9 initial sequence numbers (0, 1, 2^31, 2^31-10, 2^32-1, 2^32-2, 2^32-len, 2^32-len/2, 0x12345678) x every arrival permutation; both directions in two pieces each in all 24 interleavings (with and without wrap); four request pieces in all 24 orders; the handshake in 4 further shapes (SYN+ACK before SYN, retransmitted SYN+ACK, a stale SYN or SYN+ACK of the reversed orientation first) x whole and two-piece directions; teardown inside the exchange (FIN on the server's last segment, an empty client FIN between request and response, FIN on the client's last segment) x whole and two-piece directions; every stream once with 150 ms of real time between its packets; distinct = distinct per-packet report patterns".into(),
         exhaustive: true,
         bounds: json!({"histories": hs.len(), "streams": ss.iter().map(|s| (s.0, s.1.len(), s.2.len())).collect::<Vec<_>>()}),
     }
@@ -420,6 +455,10 @@ pub fn replay(ex: &Value) -> Report {
     let mut r = Report::new();
     let ss = streams();
     let refs: Vec<(Option<String>, Option<String>)> = run_refs(&ss);
+    if ex["kind"].as_str() == Some("slow") {
+        slow_connections(&mut r, &ss, &refs);
+        return r;
+    }
     match serde_json::from_value::<Hist>(ex["history"].clone()) {
         Ok(h) => check(&mut r, &ss, &refs, &h),
         Err(_) => r.machinery_error("bad replay file"),
